@@ -419,6 +419,42 @@ impl QueryRouter {
         }
     }
 
+    /// Does this query, or anything nested in it (CTEs, subqueries, set operations),
+    /// write or take row locks: INSERT/UPDATE bodies (data-modifying CTEs),
+    /// SELECT ... INTO, SELECT ... FOR UPDATE/SHARE.
+    fn query_needs_primary(query: &sqlparser::ast::Query) -> bool {
+        use sqlparser::ast::{SetExpr, Visit, Visitor};
+        use std::ops::ControlFlow;
+
+        fn body_writes(body: &SetExpr) -> bool {
+            match body {
+                SetExpr::Insert(_) | SetExpr::Update(_) => true,
+                SetExpr::Select(select) => select.into.is_some(),
+                SetExpr::SetOperation { left, right, .. } => {
+                    body_writes(left) || body_writes(right)
+                }
+                // Nested queries are visited on their own.
+                _ => false,
+            }
+        }
+
+        struct Detector;
+
+        impl Visitor for Detector {
+            type Break = ();
+
+            fn pre_visit_query(&mut self, q: &sqlparser::ast::Query) -> ControlFlow<()> {
+                if !q.locks.is_empty() || body_writes(q.body.as_ref()) {
+                    ControlFlow::Break(())
+                } else {
+                    ControlFlow::Continue(())
+                }
+            }
+        }
+
+        Self::is_mutation_query(query) || query.visit(&mut Detector).is_break()
+    }
+
     /// Determines if a query is a mutation or not.
     fn is_mutation_query(q: &sqlparser::ast::Query) -> bool {
         use sqlparser::ast::*;
@@ -537,10 +573,10 @@ impl QueryRouter {
                         None => (),
                     };
 
-                    let has_locks = !query.locks.is_empty();
-                    let has_mutation = Self::is_mutation_query(query);
-
-                    if has_locks || has_mutation {
+                    if Self::query_needs_primary(query) {
+                        // Not a plain read after all; later reads in the same message must
+                        // not move it to a replica either.
+                        visited_write_statement = true;
                         self.active_role = Some(Role::Primary);
                     } else if !visited_write_statement {
                         // If we already visited a write statement, we should be going to the primary.
